@@ -22,9 +22,16 @@ func Until(t real.Time) real.Duration { return t.Sub(Now()) }
 // Sleep makes waiting visible: under the scheduler it is a yield, and with a virtual clock
 // it advances virtual time instead of blocking the process.
 func Sleep(d real.Duration) {
+	if sched.Controlled() {
+		// Under the scheduler a sleep in a retry loop is a pure yield: virtual time does not
+		// move, so that states do not differ merely by how often a waiter has polled (the
+		// explored executions are those in which the lock's TTL and the obtain timeout are not
+		// reached — the property's proviso; unbounded waiting is caught as livelock).
+		sched.Yield("sleep")
+		return
+	}
 	if vclock.Active() {
 		vclock.Advance(d)
-		sched.Yield("sleep")
 		return
 	}
 	real.Sleep(d)
